@@ -28,7 +28,7 @@ func (c *Ctx) lockControls() {
 
 func runC04(c *Ctx) {
 	r := c.R
-	r.Explanation = "Decides the race-freedom clause of C04 as a pairwise consistent-lock-set discipline over every field of Broker, graph and nodeUsage (every write/access pair shares a lock held for writing at the write), immutability after publication of registeredPipeline and linkedNode, confinement of the sync.Map to graphMap's methods, and lock pairing in the root package. It does not decide the linearizability / delivery-count clause (a statement about histories of sync.Map under real interleavings). C04.section: all broker-state accesses of a mutating call lie in one critical section of Broker.lock (check-then-act atomicity). C04.copy: no second holder of the pipeline set is written outside Broker.lock:W (a reader-side cache can overwrite a newer invalidation). C04.self/order/open: the lock-order rules of C12 over the root package (a re-acquired RWMutex wedges all callers). C04.nocopy: no by-value receiver, parameter, result or dereference copy of a type that contains a sync primitive (copylocks is not among the analyzers go test runs). C04.wgfield: a sync.WaitGroup held in a field of a shared object has every Add and Wait under a common lock. C04.escape node-formatted: no Node value is handed to fmt or formatted through String in package eventlogger (fmt would read the node's fields while its Process writes them)."
+	r.Explanation = "Decides the race-freedom clause of C04 as a pairwise consistent-lock-set discipline over every field of Broker, graph and nodeUsage (every write/access pair shares a lock held for writing at the write), immutability after publication of registeredPipeline and linkedNode, confinement of the sync.Map to graphMap's methods, and lock pairing in the root package. It does not decide the linearizability / delivery-count clause (a statement about histories of sync.Map under real interleavings). C04.section: all broker-state accesses of a mutating call lie in one critical section of Broker.lock (check-then-act atomicity). C04.copy: no second holder of the pipeline set is written outside Broker.lock:W (a reader-side cache can overwrite a newer invalidation). C04.self/order/open: the lock-order rules of C12 over the root package (a re-acquired RWMutex wedges all callers). C04.nocopy: no by-value receiver, parameter, result or dereference copy of a type that contains a sync primitive (copylocks is not among the analyzers go test runs). C04.wgfield: a sync.WaitGroup held in a field of a shared object has every Add and Wait under a common lock. C04.escape node-formatted: no Node value is handed to fmt or formatted through String in package eventlogger (fmt would read the node's fields while its Process writes them). C04.seq Reopen:own-walk: every return of Broker.Reopen lies behind its own walk of the graphs (or hands back the context's error); a caller is never answered with the outcome of another call's walk."
 	r.NotDecided = []string{"linearizability of registration for Send and per-pipeline delivery counts", "absence of panics"}
 	c.lockControls()
 
@@ -103,6 +103,7 @@ func runC04(c *Ctx) {
 	// sync.Map between its registration and its removal — an overwrite is one Store
 	c.ruleSingleStore("C04.swap")
 	c.ruleOneSection("C04.section")
+	c.ruleOwnWalkAs("C04.seq")
 	c.ruleNodeNotFormatted("C04.escape")
 	// "a Send that starts after a pipeline's registration returned delivers to that pipeline": what a
 	// successful registration stores is the chain linked by THIS call from the nodes registered now
@@ -139,4 +140,30 @@ func runC04(c *Ctx) {
 	}
 	c.lockOrderRules("C04", func(fn *ssa.Function) bool { return PkgPathOf(fn) == PkgRoot }, []string{"eventlogger.Broker.lock"}, []string{PkgRoot}, false, e1)
 	r.Floor("C04.self", 10)
+}
+
+// ruleOwnWalkAs files C20's own-walk clause under another property (C04.seq: a Reopen that returns
+// success has reopened every node after it was invoked).
+func (c *Ctx) ruleOwnWalkAs(rule string) {
+	reopen := c.Fn(rule, PkgRoot, "Broker", "Reopen")
+	if reopen == nil {
+		return
+	}
+	isGraphReopen := func(n string, cc *ssa.CallCommon) bool { return n == "(*eventlogger.graph).reopen" }
+	if len(callsTo(reopen, isGraphReopen)) > 0 {
+		c.R.Ok(rule, "(*Broker).Reopen:own-walk", c.P.Pos(reopen.Pos()), "the exported method does the walk itself")
+		return
+	}
+	var helpers []ssa.CallInstruction
+	for _, ci := range callsTo(reopen, func(n string, cc *ssa.CallCommon) bool {
+		sc := cc.StaticCallee()
+		return sc != nil && sc.Blocks != nil && PkgPathOf(sc) == PkgRoot && len(callsTo(sc, isGraphReopen)) == 1
+	}) {
+		helpers = append(helpers, ci)
+	}
+	if len(helpers) != 1 {
+		c.R.Und(rule, "(*Broker).Reopen:own-walk", c.P.Pos(reopen.Pos()), "the walk over the graphs was not found in Reopen or in a helper it calls")
+		return
+	}
+	c.ruleOwnWalk(rule, reopen, helpers[0])
 }
